@@ -197,11 +197,19 @@ def check_read(ctx, rep, cls_qual):
             A.find_calls(n.ast, "self.close") or isinstance(n.ast, _ast.Raise))} | {go.exit.id}
         inst = K.exc_instance_decider(go, BlockingIOError)
 
+        import errno as _errno
+        wb = {_errno.EAGAIN, _errno.EWOULDBLOCK}
+        bad_member = []
+
         def dec(node):
             e = node.ast
-            if isinstance(e, _ast.Compare) and len(e.ops) == 1 and isinstance(e.ops[0], _ast.In) and \
-                    "retry_errnos" in A.src(e.comparators[0]):
-                return True
+            if isinstance(e, _ast.Compare) and len(e.ops) == 1 and isinstance(e.ops[0], _ast.In):
+                tab = ctx.try_fold(e.comparators[0], f.module)
+                if isinstance(tab, (tuple, list, set, frozenset)) and all(isinstance(x, int) for x in tab):
+                    return wb <= set(tab)          # the error number of a would-block condition is in the table
+                if tab is not None and not isinstance(tab, (tuple, list, set, frozenset, dict, str, bytes)):
+                    bad_member.append((e, tab))
+                    return None
             return inst(node)
         vok2 = Q.valuation_edges(dec)
         okw = bool(rn2)
@@ -218,9 +226,14 @@ def check_read(ctx, rep, cls_qual):
                 back = Q.find_path_ef([t], lambda x: x.id in heads2, lambda a, b, l: l != "exc" and vok2(a, b, l), skip_first=False)
                 if pth is not None or back is None:
                     okw, witw = False, [n] + (pth or [t])
+        if bad_member:
+            okw = False
         rep.ob("R05.1", "%s.read: would-block conditions (EAGAIN/EWOULDBLOCK) are retried" % short, okw,
                "an OSError whose errno is in retry_errnos leads straight back to the loop" if okw else
-               "EAGAIN/EWOULDBLOCK while reading is treated as a failure (stream closed mid-packet)", ctx.loc(loop),
+               ("`%s`: the right operand is %r, not a collection - the test itself raises TypeError inside the handler, so a failed "
+                "receive is neither retried nor turned into EOFError (the stream is not closed)" % (A.src(bad_member[0][0]), bad_member[0][1])
+                if bad_member else
+                "EAGAIN/EWOULDBLOCK while reading is treated as a failure (stream closed mid-packet)"), ctx.loc(loop),
                witness=ctx.path(witw) if witw else None)
     # the result is the concatenation of the accumulator
     rets = [n for n in A.walk(fn) if isinstance(n, ast.Return) and n.value is not None]
@@ -783,3 +796,47 @@ def run(ctx, rep):
             rep.ob("R05.5", o.key, o.ok, o.msg, o.loc, o.witness, o.nontrivial, o.kind)
     from . import hygiene as H
     H.no_cached_descriptor(ctx, rep, "R05.6", STREAMS)
+    check_raw_descriptor_writes(ctx, rep)
+
+
+def check_raw_descriptor_writes(ctx, rep):
+    """R05.7: a stream that writes with os.write() on the descriptor of a file OBJECT handed to it bypasses that object's
+    user-space buffer; whatever is still buffered there would reach the pipe after (between) the frames. Such a stream must
+    flush the object when it takes it over (or before each raw write)."""
+    rep.rule("R05.7", "raw descriptor writes do not overtake bytes buffered in the file object: the stream flushes the object it "
+                      "takes over")
+    n_sites = 0
+    for cq, c in sorted(ctx.repo.classes.items()):
+        if c.module.name != "rpyc.core.stream":
+            continue
+        fw = c.methods.get("write")
+        if fw is None:
+            continue
+        flds = set()
+        for call in A.calls(fw.node):
+            if A.call_name(call) == "os.write" and call.args:
+                a0 = call.args[0]
+                if isinstance(a0, ast.Call) and isinstance(a0.func, ast.Attribute) and a0.func.attr == "fileno" and \
+                        K.self_attr(a0.func.value):
+                    flds.add(a0.func.value.attr)
+        for fld in sorted(flds):
+            n_sites += 1
+            fi = c.methods.get("__init__")
+            src_params = set()
+            flushed = False
+            for fn_ in [m for m in (fi, fw) if m is not None]:
+                for n in A.walk(fn_.node):
+                    if isinstance(n, ast.Assign) and any(K.self_attr(t, fld) for t in n.targets) and isinstance(n.value, ast.Name):
+                        src_params.add(n.value.id)
+            for fn_ in [m for m in (fi, fw) if m is not None]:
+                for call in A.calls(fn_.node):
+                    if isinstance(call.func, ast.Attribute) and call.func.attr == "flush":
+                        b = call.func.value
+                        if K.self_attr(b, fld) or (isinstance(b, ast.Name) and b.id in src_params and fn_ is fi):
+                            flushed = True
+            rep.ob("R05.7", "%s: the file object behind self.%s is flushed before the stream writes to its descriptor" % (c.name, fld),
+                   flushed, "flush() when the object is taken over" if flushed else
+                   "%s.write uses os.write(self.%s.fileno(), ...) but the object's own buffer is never flushed: bytes written through "
+                   "the file object before the stream took it over (a banner on stdout) are emitted later, in between frames"
+                   % (c.name, fld), (fi or fw).loc, kind="site")
+    rep.floor("R05.7", "streams writing to the raw descriptor of a file object", n_sites, 1)
